@@ -29,9 +29,13 @@ from session import Session
 COMPS = "(?:[^/]+(?:[/][^/]+)*)"
 _TREE = re.compile(r"(?<!\\)\.\*")
 _OPTQ = re.compile(r"\)\{0,")
+_ANYQ = re.compile(r"\)\{\d+,\d*\}")
+_NEGCLASS = re.compile(r"(\(\?-i:\[\^(?:\\.|[^\]\\])*)\]\)")
 _LEAD = re.compile(r"\(\?:\[/\]\?\|((?:\((?:\?:)?)?)" + re.escape(COMPS) + r"\[/\]")
 
+ZOM = "\\x{1}"
 NOT_WF = cat("re.all", lit("//"), "re.all")
+ZOMZOM = cat("re.all", lit("\u0001\u0001"), "re.all")
 UNROOTED = diff("ANY", cat(SEP, "ANY"))
 ROOTED = cat(SEP, "ANY")
 
@@ -45,7 +49,18 @@ def patch(pattern):
     p = _OPTQ.sub("){1,", p)
     p1 = _TREE.sub(COMPS, p)
     p2 = _LEAD.sub(lambda m: "(?:|" + m.group(1) + COMPS + "[/]", p1)
-    return p1, p2
+    # O3: every zero-or-more wildcard becomes the marker U+0001 (no generated expression contains
+    # it), so that two of them adjacent in some unfolding show as two adjacent markers
+    p3 = pattern.replace("[^/]*?", ZOM).replace("[^/]*", ZOM)
+    # the statement quantifies this rule over the choice of branches only: repetition bodies are
+    # taken once; a tree wildcard is taken with its separator (it is not a zero-or-more wildcard
+    # that could vanish between two others)
+    p3 = _TREE.sub(COMPS, _ANYQ.sub("){1}", p3)).replace("[/]?", "[/]")
+    # no other token may produce the marker: `?`, whole components and positive classes are built on
+    # `[^/]`, negated classes end in the separator exclusion
+    p3 = p3.replace("[^/]", "[^/\\x{1}]")
+    p3 = _NEGCLASS.sub(lambda m: m.group(1) + "\\x{1}])", p3)
+    return p1, p2, p3
 
 
 def nested_edge(text, ast):
@@ -56,6 +71,28 @@ def nested_edge(text, ast):
         if alt is not None and gen.show(alt) == text:
             ast = alt
     return ast is not None and R.boundary_at_nested_branch_edge(ast)
+
+
+def nested_zom(text, ast):
+    """Same weakness, zero-or-more variant: a branch nested at least two levels deep begins or ends
+    with a zero-or-more wildcard."""
+    if ast is None:
+        alt = gen.parse(text)
+        if alt is not None and gen.show(alt) == text:
+            ast = alt
+
+    def edge(g):
+        items = gen.nonflag(g)
+        return bool(items) and (items[0][0] in ("zom", "lazy") or items[-1][0] in ("zom", "lazy"))
+
+    def rec(g, depth):
+        for it in gen.nonflag(g):
+            subs = it[1] if it[0] == "alt" else ([it[1]] if it[0] == "rep" else [])
+            for b in subs:
+                if (depth + 1 >= 2 and edge(b)) or rec(b, depth + 1):
+                    return True
+        return False
+    return ast is not None and rec(ast, 0)
 
 
 def run():
@@ -87,15 +124,18 @@ def run():
     # patched programs
     pats = [patch(row["re"]) for _, row, _ in targets]
     flat = []
-    for p1, p2 in pats:
+    for p1, p2, p3 in pats:
         flat.append(p1)
         flat.append(p2)
+        flat.append(p3)
     uniq = sorted(set(flat))
     prow = dict(zip(uniq, probe([{"op": "re", "re": p} for p in uniq])))
     tasks = []
     sometimes = []
-    for i, ((text, row, ast), (p1, p2)) in enumerate(zip(targets, pats)):
-        r1, r2 = prow[p1], prow[p2]
+    for i, ((text, row, ast), (p1, p2, p3)) in enumerate(zip(targets, pats)):
+        r1, r2, r3 = prow[p1], prow[p2], prow[p3]
+        if "\u0001" not in text and r3 and "smt" in r3 and ZOM in p3:
+            tasks.append((("zom", i), member(inter(r3["smt"], ZOMZOM))))
         if not r1 or "smt" not in r1 or not r2 or "smt" not in r2 or _TREE.search(p1):
             rep.undecided_add({"program": text, "why": "patched pattern not translatable"})
             continue
@@ -111,16 +151,24 @@ def run():
     for k, v in res.items():
         if v[0] in ("unknown", "error"):
             rep.undecided_add({"program": targets[k[1]][0], "clause": k[0], "why": v[1]})
-    real = ses.replay_match([({"glob": targets[k[1]][0]}, w) for k, w in wit])
+    # a marker stands for the text of a zero-or-more wildcard: the path with some text in its place
+    # must really match
+    real = ses.replay_match([({"glob": targets[k[1]][0]}, w.replace("\u0001", "m")) for k, w in wit])
     for (k, w), r in zip(wit, real):
         text, row, ast = targets[k[1]]
         if not r["m"]:
             raise Inconclusive("witness %r for %r (%s) does not reproduce" % (w, text, k[0]))
         roles = set()
-        if nested_edge(text, ast):
+        if nested_edge(text, ast) or (k[0] == "zom" and nested_zom(text, ast)):
             roles.add("boundary-at-nested-branch-edge")
         if k[0] == "wf":
             roles.add("built-glob-has-adjacent-boundaries")
+        elif k[0] == "zom":
+            roles.add("built-glob-has-adjacent-zero-or-more-wildcards")
+            rep.candidate(roles, {"short": {"program": text, "clause": "zom", "unfolding": w.replace("\u0001", "*"),
+                                            "path": w.replace("\u0001", "m"), "real_is_match": True, "pattern": row["re"],
+                                            "meaning": "the expression builds, yet in the unfolding shown (each * is the text of one zero-or-more wildcard) two zero-or-more wildcards are adjacent"}})
+            continue
         else:
             roles.add("built-glob-rooted-only-sometimes")
         rep.candidate(roles, {"short": {"program": text, "clause": k[0], "path": w, "real_is_match": True,
@@ -138,7 +186,7 @@ def run():
                     "obligations": "L'(g) ∩ Σ*//Σ* = ∅ ; L'(g) ⊆ rooted or L'(g) ⊆ unrooted according to has_root()",
                     "verdicts": [res.get(("wf", i), ("-",))[0], res.get(("root", i), ("-",))[0]]})
     rep.assumptions += [
-        "acceptance soundness only: that well-formed expressions are *not* rejected, and the rules that leave no trace in the language (adjacent zero-or-more wildcards, bodies that are solely a wildcard, bounds, size) are outside the claim",
+        "acceptance soundness only: that well-formed expressions are *not* rejected, and the rules that leave no trace in the compiled program (bodies that are solely a wildcard, bounds, size) are outside the claim; O3: with every zero-or-more wildcard replaced by a marker, no unfolding has two adjacent markers",
         "L'(g): tree wildcards range over non-empty runs of complete components, zero-or-more wildcards over non-empty text, repetitions over at least one iteration (each a subset of what the token matches), everything else as compiled",
     ]
     return ses.finish(len(targets), {
